@@ -1,2 +1,170 @@
-From BFS Require Import Backup.History.
-Example placeholder_C08 : True. Proof. exact I. Qed.
+(** C08 — no modification of the base without a successful backup.
+
+    Proved here, for EVERY pair of filesystems [base backup : fsapi] and EVERY
+    world (fault plans and crash points included; no law about the two
+    filesystems is assumed), by API restriction (Proofs/Footprint.v): [ro base]
+    is [base] with every mutating method (OpenFile, Create, Mkdir, MkdirAll,
+    Remove, RemoveAll, Rename, Chmod, Chown, Lchown, Chtimes, Symlink) replaced
+    by a trap that stops the whole computation.  An equation
+    [f (ro base) backup w = f base backup w] therefore says that [f], started
+    in [w], never invokes a mutating method of the base.
+
+    (a) [C08_*_never_mutates_base]: resolving a path ([real_path],
+        [real_path_found]) and taking a backup ([backup_dirs], [try_backup])
+        never invoke a mutating method of the base.
+    (b) [C08_<op>]: for Create, Mkdir, MkdirAll, OpenFile with a flag other
+        than O_RDONLY, Remove, Chmod, Chown, Lchown, Chtimes, Symlink: if the
+        backup step of the operation fails (with an error or at a crash point)
+        the operation returns that very failure in exactly the world the failed
+        backup left - nothing at all is called afterwards - and the whole
+        failing operation runs identically on [ro base]: between its start and
+        its return no mutating method of the base was invoked.
+        [fail_stop] is spelled out by [C08_fail_stop_meaning].
+        [C08_rename]: the same for each of Rename's two backups (the new name
+        is backed up first).
+        [C08_removeall_*]: RemoveAll is a read-only walk of the base plus one
+        [b_remove] per entry; no failure of a [b_remove] (nor of the
+        [try_backup] inside it) is caught or ignored: the first one ends
+        RemoveAll with an error in the world that failure left.
+
+    NOT proved here: anything about what the methods of [base]/[backup] do
+    (in particular that a *successful* backup is a faithful copy: C01/C02);
+    which open handles are written to ([hwrite]/[hclose] are global functions
+    of the model, not [fsapi] methods: in the model text the only writes of
+    [try_backup] go to the handle returned by [backup.OpenFile] inside
+    [write_file], the handle from [base.Open] is only read and closed - this is
+    read off the definitions, not a theorem); RemoveAll is fail-stop per entry,
+    entries removed before the failing one stay removed (they were backed up). *)
+From stdpp Require Import gmap.
+From BFS Require Import Backup.History Proofs.Footprint.
+
+(** ** (a) *)
+
+Theorem C08_real_path_never_mutates_base : forall base name w,
+  real_path (ro base) name w = real_path base name w.
+Proof. exact real_path_ro. Qed.
+Print Assumptions C08_real_path_never_mutates_base.
+
+Theorem C08_real_path_found_never_mutates_base : forall base name w,
+  real_path_found (ro base) name w = real_path_found base name w.
+Proof. exact real_path_found_ro. Qed.
+Print Assumptions C08_real_path_found_never_mutates_base.
+
+Theorem C08_backup_dirs_never_mutates_base : forall base backup d w,
+  backup_dirs (ro base) backup d w = backup_dirs base backup d w.
+Proof. exact backup_dirs_ro. Qed.
+Print Assumptions C08_backup_dirs_never_mutates_base.
+
+Theorem C08_try_backup_never_mutates_base : forall base backup p w,
+  try_backup (ro base) backup p w = try_backup base backup p w.
+Proof. exact try_backup_ro. Qed.
+Print Assumptions C08_try_backup_never_mutates_base.
+
+(** the methods [try_backup] uses at all: of the base Lstat, Readlink, Open; of
+    the backup Lstat, MkdirAll, Chmod, Chtimes, Chown, OpenFile, Symlink,
+    Lchown, Remove (never RemoveAll, Rename, Create, Mkdir) *)
+Theorem C08_try_backup_methods : forall base backup p w,
+  try_backup (only_methods ms_backup_base base) (only_methods ms_backup_backup backup) p w
+  = try_backup base backup p w.
+Proof. exact try_backup_only. Qed.
+Print Assumptions C08_try_backup_methods.
+
+(** ** (b) *)
+
+Theorem C08_fail_stop_meaning : forall (A : Type) base backup name (op : fsapi -> fsapi -> M A),
+  fail_stop base backup name op <->
+  (forall w rn w1 w2,
+     real_path base name w = (MOk rn, w1) ->
+     (forall e, try_backup base backup rn w1 = (MErr e, w2) ->
+        op base backup w = (MErr e, w2) /\ op (ro base) backup w = (MErr e, w2)) /\
+     (try_backup base backup rn w1 = (MHalt, w2) ->
+        op base backup w = (MHalt, w2) /\ op (ro base) backup w = (MHalt, w2))).
+Proof. intros A base backup name op. unfold fail_stop. reflexivity. Qed.
+Print Assumptions C08_fail_stop_meaning.
+
+Theorem C08_create : forall base backup name,
+  fail_stop base backup name (fun b bk => b_create b bk name).
+Proof. exact b_create_fail_stop. Qed.
+Print Assumptions C08_create.
+
+Theorem C08_mkdir : forall base backup name perm,
+  fail_stop base backup name (fun b bk => b_mkdir b bk name perm).
+Proof. exact b_mkdir_fail_stop. Qed.
+Print Assumptions C08_mkdir.
+
+Theorem C08_mkdirall : forall base backup name perm,
+  fail_stop base backup name (fun b bk => b_mkdirall b bk name perm).
+Proof. exact b_mkdirall_fail_stop. Qed.
+Print Assumptions C08_mkdirall.
+
+Theorem C08_openfile_writing : forall base backup name fl perm, fl <> 0%N ->
+  fail_stop base backup name (fun b bk => b_openfile b bk name fl perm).
+Proof. exact b_openfile_fail_stop. Qed.
+Print Assumptions C08_openfile_writing.
+
+Theorem C08_remove : forall base backup name,
+  fail_stop base backup name (fun b bk => b_remove b bk name).
+Proof. exact b_remove_fail_stop. Qed.
+Print Assumptions C08_remove.
+
+Theorem C08_chmod : forall base backup name mode,
+  fail_stop base backup name (fun b bk => b_chmod b bk name mode).
+Proof. exact b_chmod_fail_stop. Qed.
+Print Assumptions C08_chmod.
+
+Theorem C08_chown : forall base backup name uid gid,
+  fail_stop base backup name (fun b bk => b_chown b bk name uid gid).
+Proof. exact b_chown_fail_stop. Qed.
+Print Assumptions C08_chown.
+
+Theorem C08_lchown : forall base backup name uid gid,
+  fail_stop base backup name (fun b bk => b_lchown b bk name uid gid).
+Proof. exact b_lchown_fail_stop. Qed.
+Print Assumptions C08_lchown.
+
+Theorem C08_chtimes : forall base backup name t,
+  fail_stop base backup name (fun b bk => b_chtimes b bk name t).
+Proof. exact b_chtimes_fail_stop. Qed.
+Print Assumptions C08_chtimes.
+
+Theorem C08_symlink : forall base backup oldname newname,
+  fail_stop base backup newname (fun b bk => b_symlink b bk oldname newname).
+Proof. exact b_symlink_fail_stop. Qed.
+Print Assumptions C08_symlink.
+
+Theorem C08_rename : forall base backup oldname newname w ro_ w1 rn w2,
+  real_path base oldname w = (MOk ro_, w1) ->
+  real_path base newname w1 = (MOk rn, w2) ->
+  (forall r w3, try_backup base backup rn w2 = (r, w3) -> r <> MOk tt ->
+     b_rename base backup oldname newname w = (r, w3) /\
+     b_rename (ro base) backup oldname newname w = (r, w3)) /\
+  (forall w3 r w4, try_backup base backup rn w2 = (MOk tt, w3) ->
+     try_backup base backup ro_ w3 = (r, w4) -> r <> MOk tt ->
+     b_rename base backup oldname newname w = (r, w4) /\
+     b_rename (ro base) backup oldname newname w = (r, w4)).
+Proof. exact b_rename_fail_stop. Qed.
+Print Assumptions C08_rename.
+
+(** RemoveAll *)
+Theorem C08_removeall_structure : forall base backup name w,
+  b_removeall base backup name w = removeall_gen base (b_remove base backup) name w.
+Proof. exact b_removeall_as_gen. Qed.
+Print Assumptions C08_removeall_structure.
+
+Theorem C08_removeall_walk_never_mutates : forall wb rm name w,
+  removeall_gen (ro wb) rm name w = removeall_gen wb rm name w.
+Proof. exact removeall_gen_ro. Qed.
+Print Assumptions C08_removeall_walk_never_mutates.
+
+Theorem C08_removeall_remove_fail_stop : forall wb rm name w,
+  stops_like (removeall_gen wb rm name w)
+             (removeall_gen wb (fun n => halt_on_err (rm n)) name w).
+Proof. exact removeall_gen_fail_stop. Qed.
+Print Assumptions C08_removeall_remove_fail_stop.
+
+Theorem C08_removeall_backup_fail_stop : forall base backup name w,
+  stops_like (b_removeall base backup name w)
+             (removeall_gen base
+                (remove_with base (fun p => halt_on_err (try_backup base backup p))) name w).
+Proof. exact b_removeall_backup_fail_stop. Qed.
+Print Assumptions C08_removeall_backup_fail_stop.
